@@ -812,12 +812,12 @@ static int cfs_on;
 static struct cfe { char alg[10]; unsigned char il, bl, ol; unsigned char in[128], blk[128], outb[64]; } *cfe;
 typedef void (*sink_t) (const char *, const void *, size_t, const void *, size_t, const void *, size_t);
 /* other primitive facts (bcrypt key expansion): name + three buffers */
-#define MAXAUX 8
+#define MAXAUX 160
 static struct aux { char name[12]; size_t al, bl, cl; unsigned char a[520], b[80], c[80]; } auxe[MAXAUX];
 static void
 cf_sink (const char *ev, const void *a, size_t al, const void *b, size_t bl, const void *c, size_t cl)
 {
-  if (cfs_on && in_lib && !strncmp (ev, "bfkey", 5))
+  if (cfs_on && in_lib && (!strncmp (ev, "bfkey", 5) || !strncmp (ev, "smix", 4) || !strcmp (ev, "ykdf")))
     {
       if (naux < MAXAUX && al <= 520 && bl <= 80 && cl <= 80)
         {
